@@ -220,8 +220,21 @@ class SdRunner(ScenarioRunner):
             if key in scenarios:
                 sc = scenario_objects[key]
                 simu = SdSimulation(model=sc.model, name=sc.name)
+                # The scenario's constants are installed over the model's own definitions. Whatever was memoised with another
+                # definition of a constant (the model was edited, or the scenario's value was changed, since the last run) is
+                # not valid any more; as long as the installed definition is still in force the memo of earlier runs is kept.
+                installed = getattr(sc, "_installed_constants", {})
                 for const in sc.constants.keys():
-                    simu.change_equation(name=const, value=sc.constants[const])
+                    value = sc.constants[const]
+                    known = installed.get(const)
+                    if known is not None and known[0] == value and sc.model.equations.get(const) is known[1]:
+                        continue
+                    if len(sc.model.memo.get(const, {})) > 0:
+                        for equation in sc.model.memo.keys():
+                            sc.model.memo[equation] = {}
+                    simu.change_equation(name=const, value=value)
+                    installed[const] = (value, sc.model.equations.get(const))
+                sc._installed_constants = installed
                 for name, points in sc.points.items():
                     simu.change_points(name=name, value=points)
                 simu.change_runspecs(starttime=sc.starttime,stoptime=sc.stoptime,dt=sc.dt)
